@@ -1113,9 +1113,9 @@ def average(n, target):
     while True:
         while data.shape[axis] >= n:
             s = [Ellipsis] * data.ndim
-            s[axis] = np.s_[:block_size]
+            s[axis] = np.s_[:n]
             target(data[s].mean(axis=axis))
-            s[axis] = np.s_[block_size:]
+            s[axis] = np.s_[n:]
             data = data[s]
         new_data = (yield)
         data = np.concatenate((data, new_data), axis=axis)
